@@ -1,5 +1,6 @@
 (* C17 — the variable stack.  Theorems only; proofs in Proofs/StackP.v. *)
-From V Require Import Base.Bytes Base.Obs Base.Val Model.Stack Proofs.StackP Run.RunC17.
+From V Require Import Base.Bytes Base.Obs Base.Val Model.Stack Proofs.StackP Proofs.MapLoopP Run.RunC17.
+From Coq Require Import Permutation Sorted.
 
 (* 1. lookup returns the innermost binding, falling back to the root data value *)
 Theorem C17_lookup_innermost : forall s m k,
@@ -117,3 +118,15 @@ Example C17_premises_satisfiable :
   let s := {| scopes := [[(bs "a", VStr (bs "1"))]]; root := VNil |} in
   scopes s <> [] /\ above 1 [MPush []; MSet (bs "a") VNil; MPop; MSet (bs "b") VNil] = Some 1 /\ Forall uniq (scopes s).
 Proof. cbn. repeat split; try discriminate. repeat constructor. intros []. Qed.
+
+(* ForEach over a map (stack.go:ForEach): the values come in the order of the printed keys, each entry once, and
+   that order is the same for every listing of the map's entries (the Go runtime's iteration order cannot show) *)
+Theorem C17_foreach_map_in_key_order : forall v m, map_items v = Some m ->
+  exists l, for_each_val v = map snd l /\ StronglySorted kle l /\ Permutation m l.
+Proof. exact for_each_map_sorted_perm. Qed.
+Print Assumptions C17_foreach_map_in_key_order.
+Theorem C17_foreach_map_order_free : forall v v' m m',
+  map_items v = Some m -> map_items v' = Some m' -> Permutation m m' -> NoDup (map fst m) ->
+  for_each_val v = for_each_val v'.
+Proof. exact for_each_val_order_free. Qed.
+Print Assumptions C17_foreach_map_order_free.
